@@ -131,6 +131,38 @@ def job_wccn(P, D, name, labels):
         P.run("wccn-dask2-" + name, sc_wccn, dict(D=D, labels=labels, dask_chunks=(2, N - 2), staged=st), validate=0, linalg=la)
 
 
+def sc_offset(B, which, offset, dask):
+    """real code only: data with a large common offset (float cancellation): the transformed
+    training data still have identity covariance / within-class scatter"""
+    import numpy as np
+
+    rs = np.random.RandomState(5)
+    X = rs.normal(size=(40, 3)) @ np.array([[1.0, 0.3, 0.0], [0.0, 0.7, 0.2], [0.0, 0.0, 1.5]]) + offset
+    y = [0, 1, 2, 3] * 10
+    data = X if not dask else B.darr(X, ((25, 15), (3,)))
+    o = Outcome()
+    if which == "whitening":
+        m = B.mod("whitening").Whitening().fit(data)
+        T = np.asarray(m.transform(X))
+        o.equal("cov-identity", np.cov(T.T), np.eye(3))
+    else:
+        m = B.mod("wccn").WCCN().fit(data, y)
+        W = np.asarray(m.weights)
+        T = (X - X.mean(0)) @ W
+        S = np.zeros((3, 3))
+        for k in range(4):
+            Tk = T[np.array(y) == k]
+            Tk = Tk - Tk.mean(0)
+            S += Tk.T @ Tk
+        o.equal("scatter-identity", S / 4, np.eye(3))
+    return o
+
+
+def job_offset(P):
+    plist = [dict(which=w, offset=off, dask=dk) for w in ("whitening", "wccn") for off in (0.0, 1e4, 1e7) for dk in (False, True)]
+    P.probe_real("large-offset", sc_offset, plist, tries=1)
+
+
 def job_whitening(P, D, N):
     st = D >= 2
     la = "uf" if st else "closed"
@@ -140,7 +172,7 @@ def job_whitening(P, D, N):
 
 
 def jobs(tier):
-    out = []
+    out = [("offsets", "job_offset", {})]
     for D in (1, 2):
         for name, labels in LABELINGS:
             out.append(("wccn@D%d-%s" % (D, name), "job_wccn", dict(D=D, name=name, labels=labels)))
